@@ -12,8 +12,10 @@ from props import cp_common as K
 AREAS = ["Cp"]
 LEVEL = "proof"
 ASSUMPTIONS = [
-    "the DFS mirror (Solvor/Cp/Prop.lean) tries values in ascending order; CPython's set iteration order is "
-    "not modelled, so nothing that depends on it is compared (no R_trace for DFS; solution *sets* only)",
+    "the executable DFS mirror (Solvor/Cp/Prop.lean) tries values in ascending order; CPython's set iteration "
+    "order is not reproduced, so only order-independent observables are compared (solution *sets*, feasibility); "
+    "the DFS theorems hold for every variable selection / value order (dfs_returns_solutions, dfs_complete, "
+    "dfs_order_independent), so they do not depend on it",
     "unnamed variables (int_var without a name, hidden from results) are generated; for them the returned values "
     "must extend to a solution (verified enumerator); empty domains (lb > ub) are generated (the model then has "
     "no solution)",
@@ -27,7 +29,7 @@ RULE = ("grammar-directed over the public operators (IntVar/Expr +,-,*, reversed
         "==/!= relations, eq/ne const/var, all_different, sum_eq/le/ge, circuit, no_overlap, cumulative (1-4 "
         "arguments), hints in/out of domain/unknown name, solution_limit in {1,3,100}; every model is solved with "
         "solver=auto, dfs and sat; plus a routing family (operator sums over 2-8 all_different variables with domains up "
-        "to 0..12, where a DFS run would not finish; judged by the verified evaluator on the returned and a planted "
+        "to 0..10, where a DFS run would not finish; judged by the verified evaluator on the returned and a planted "
         "assignment, the back-end actually used is compared with the Cp.Choose mirror); non-trivial = >=1 constraint and >=2 variables with non-singleton domains; "
         "distinct by (model, hints, limit, solver)")
 FN = "Model.solve"
@@ -158,9 +160,51 @@ def first_judgement(case, pcs, out, d):
     return uniq
 
 
+def symptom(klass):
+    return ":".join(klass.split(":")[:2])
+
+
+def evaluate(cases):
+    """(failures, replay dict) per case, without side effects on ctx (used by the shrinker)."""
+    outs = run_pool(K.impl, cases, timeout=K.SAT_TIMEOUT * (8 if any(c.get("big") for c in cases) else 1) + 20.0)
+    pcss, replies = K.run_model(cases, outs, mode=0)
+    res = []
+    for case, pcs, out, rp in zip(cases, pcss, outs, replies):
+        d = K.unpack(rp)
+        rep = {"case": case, "proto": pcs, "impl": out,
+               "model": {k: d[k] for k in ("sols", "hint_sols", "checks", "choose_sat", "sat_under_assumptions",
+                                           "sat_model_checks")}}
+        res.append((first_judgement(case, pcs, out, d), rep, pcs))
+    return res
+
+
+def report(ctx, case, klass, what, rep):
+    """ctx.fail, after shrinking the first few failing inputs (same symptom must persist)."""
+    if getattr(ctx, "_shrunk", 0) >= 5 or ctx.known_match(FN, klass) is not None or case.get("big"):
+        return ctx.fail(FN, klass, what, rep)
+    ctx._shrunk = getattr(ctx, "_shrunk", 0) + 1
+    sym = symptom(klass)
+
+    def fails_with(cands):
+        return [any(symptom(k) == sym for k, _, _ in f) for f, _, _ in evaluate(cands)]
+
+    small, steps = K.minimise({k: v for k, v in case.items() if k != "plant"}, fails_with)
+    if steps:
+        fails, rep2, pcs = evaluate([small])[0]
+        hit = next(((k, w, n) for k, w, n in fails if symptom(k) == sym), None)
+        if hit is not None:
+            k2, w2, needs = hit
+            if needs:
+                k2 += ":" + (K.tag_of(pcs[0]) if len(pcs) == 1 else "none" if not pcs else klass.split(":", 2)[-1])
+            rep2["shrunk_from"] = {"case": case, "class": klass, "steps": steps}
+            ctx.count("shrunk_failures")
+            return ctx.fail(FN, k2, w2, rep2)
+    return ctx.fail(FN, klass, what, rep)
+
+
 def run_cases(ctx, cases, attribute=True):
     K.preload()
-    outs = run_pool(K.impl, cases, timeout=K.SAT_TIMEOUT + 20.0)
+    outs = run_pool(K.impl, cases, timeout=K.SAT_TIMEOUT * (8 if any(c.get("big") for c in cases) else 1) + 20.0)
     pcss, replies = K.run_model(cases, outs, mode=2)
     pending = []  # (case, klass, what, rep)
     groups = {}
@@ -201,18 +245,24 @@ def run_cases(ctx, cases, attribute=True):
                 pending.append((case, pcs, klass, what, rep))
             else:
                 tagset = "" if not needs else ":" + ("none" if not pcs else "+".join(sorted({K.tag_of(p) for p in pcs})))
-                ctx.fail(FN, klass + tagset, what, rep)
+                report(ctx, case, klass + tagset, what, rep)
         # agreement of the back-ends on satisfiability (same model, hints, limit)
         if out[0] == "ok" and st in ("OPTIMAL", "FEASIBLE", "INFEASIBLE"):
             key = json.dumps([case["vars"], case["cons"], case["hints"], case["limit"], case.get("hidden")], sort_keys=True)
             groups.setdefault(key, []).append((case["solver"], st != "INFEASIBLE", bool(fails)))
         if out[0] == "ok" and out[1]["sols"] is not None and len(out[1]["sols"]) > case["limit"]:
             ctx.tdiv(FN, {"case": case, "what": "more solutions returned than solution_limit", "impl": out[1]["sols"]})
-        # soft tie of the DFS mirror: with a limit above the number of solutions the DFS path returns all of them
-        if (out[0] == "ok" and path == "dfs" and st != "INFEASIBLE" and d["dfs"] is not None
-                and len(d["hint_sols"]) < case["limit"] and not case.get("hidden")):
-            got = sorted(tuple(s) for s in (out[1]["sols"] or []) if None not in s)
-            ctx.count("dfs_mirror_same_set" if got == sorted(tuple(s) for s in d["dfs"]) else "dfs_mirror_other_set")
+        # R_trace (order-insensitive): with a limit above the number of solutions every back-end returns each
+        # hint-compatible solution exactly once (DFS: theorem dfs_enumerates_all; mirror = dfsSolve)
+        if (out[0] == "ok" and st in ("OPTIMAL", "FEASIBLE") and not case.get("big") and not case.get("hidden")
+                and len(d["hint_sols"]) < case["limit"] and not fails):
+            got = sorted(tuple(s) for s in (out[1]["sols"] or []))
+            want = sorted(tuple(s) for s in (d["dfs"] if (path == "dfs" and d["dfs"] is not None) else d["hint_sols"]))
+            if got == want:
+                ctx.count(f"all_solutions_enumerated:{path}")
+            else:
+                ctx.tdiv(FN, {"case": case, "what": f"{path} back-end with a limit above the number of solutions did not "
+                              "return each solution exactly once", "impl": got, "mirror": want})
         canon = [case["vars"], case["cons"], case["hints"], case["limit"], case["solver"], case.get("hidden") or []]
         ctx.case(canon, K.nontrivial(case), {"case": case, "impl_status": st, "impl_sols": (out[1]["sols"] if out[0] == "ok" else None),
                                              "n_solutions": len(d["sols"]), "path": path})
@@ -252,11 +302,54 @@ def run_cases(ctx, cases, attribute=True):
                 rep = {**rep, "attributed_to_constraint": found[n]}
             else:
                 tag = "combination:" + "+".join(sorted({K.tag_of(p) for p in pcs}))
-            ctx.fail(FN, f"{klass}:{tag}", what, rep)
+            report(ctx, case, f"{klass}:{tag}", what, rep)
+
+
+def _malformed(kind):
+    """Malformed / edge uses of the public API (not part of R_prop): the outcome kind is recorded."""
+    from solvor.cp import Model
+    m = Model()
+    x, y = m.int_var(0, 2, "x"), m.int_var(0, 2, "y")
+    if kind == "unknown_solver":
+        return m.solve(solver="cdcl").status.name
+    if kind == "no_overlap_lengths":
+        return str(m.no_overlap([x, y], [1]))
+    if kind == "cumulative_lengths":
+        return str(m.cumulative([x, y], [1, 1], [1], 2))
+    if kind == "expr_minus_var":
+        return str((x + 1) - y)
+    if kind == "int_minus_expr":
+        return str(3 - (x + 1))
+    if kind == "expr_times_expr":
+        return str((x + 1) * (y + 1))
+    if kind == "hint_unknown_and_out_of_domain":
+        m.add(x != y)
+        return m.solve(hints={"zz": 1, "x": 9}).status.name
+    if kind == "solve_twice_sat_then_dfs":  # auxiliaries of the first encoding stay in the model
+        m.add(m.sum_eq([x, y, x], 3))
+        a = m.solve(solver="sat").status.name
+        m2 = Model()
+        u, v = m2.int_var(0, 2, "u"), m2.int_var(0, 2, "v")
+        m2.add(u + v == 2)
+        b1 = m2.solve(solver="sat").solution
+        b2 = m2.solve(solver="dfs", solution_limit=10)
+        return a + ":" + str(b1 is not None) + ":" + str(len(b2.solutions or [b2.solution]))
+    raise KeyError(kind)
+
+
+def run_malformed(ctx):
+    kinds = ["unknown_solver", "no_overlap_lengths", "cumulative_lengths", "expr_minus_var", "int_minus_expr",
+             "expr_times_expr", "hint_unknown_and_out_of_domain", "solve_twice_sat_then_dfs"]
+    outs = run_pool(_malformed, kinds, timeout=20.0)
+    rec = ctx.cov.setdefault("malformed_stream", {})
+    for k, o in zip(kinds, outs):
+        rec[k] = o[1] if o[0] == "ok" else err_kind(o)
 
 
 def run(ctx, budget):
     ctx.cov["rule"] = RULE
+    K.preload()
+    run_malformed(ctx)
     cases = list(edge_cases()) + [c["case"] for c in core.load_corpus("C05")]
     run_cases(ctx, cases)
     # batches bound the memory of a thorough run; every batch is generated from ctx.rng only
@@ -278,4 +371,5 @@ def summarise(ctx):
 
 def replay(ctx, body):
     ctx.cov["rule"] = RULE
+    ctx._shrunk = 5  # replay exactly the recorded input, no further shrinking
     run_cases(ctx, [body["case"]])
